@@ -297,7 +297,8 @@ class Build:
     def __init__(self, case, tick, src, src2):
         self.case = case
         self.tick = tick
-        self.text = '$src'
+        self.text = {'method': '$obj.stream()', 'attr': '$obj.events'}.get(
+            case.get('source_via'), '$src')
         self.gen = src
         self.src2 = src2
         self.t = 'dict' if case.get('dict_source') else 'int'
@@ -610,6 +611,9 @@ def gen_case(seeds, params, index):
             'limit': w.choice([-1, -1, 1000, 5000]),
             'via_data': w.random() < 0.3,
             'reiterable': w.random() < 0.15,
+            # the stream handed out by a yaqlized host object (method result
+            # or attribute), results auto-yaqlized
+            'source_via': w.choice([None] * 8 + ['method', 'attr']),
             'fault': fault}
 
 
@@ -646,6 +650,29 @@ def base_context():
             return x
         c.register_function(tick, name='tick')
     return c
+
+
+def _as_generator(src):
+    # a plain generator: cannot take attributes, so auto-yaqlization of the
+    # result leaves it an ordinary lazy sequence
+    for x in src:
+        yield x
+
+
+class StreamOwner:
+    def __init__(self, src):
+        self.events = _as_generator(src)
+        self._src = src
+
+    def stream(self):
+        return _as_generator(self._src)
+
+
+def make_stream_owner(src):
+    from yaql import yaqlization
+    o = StreamOwner(src)
+    yaqlization.yaqlize(o, auto_yaqlize_result=True)
+    return o
 
 
 class Reiterable:
@@ -743,23 +770,26 @@ def execute(case, stats):
     ctx = ctx0.create_child_context()
     ctx['src2'] = src2
     data_src = src
+    if case.get('source_via'):
+        ctx['obj'] = make_stream_owner(src)
     if case.get('reiterable'):
         # an iterable that is not an iterator (only __iter__), as hosts pass
         # for re-readable streams
         data_src = Reiterable(src)
     skey = (text, case['limit'], case['mode'] != 'next',
-            bool(case.get('via_data')))
+            bool(case.get('via_data')) and not case.get('source_via'))
     st = _state.setdefault('stmts', {}).get(skey)
     if st is None:
         st = engine(text.replace('$src.', '$.').replace('($src)', '($)')
-                    if case.get('via_data') else text)
+                    if case.get('via_data') and not case.get('source_via')
+                    else text)
         _state['stmts'][skey] = st
     del _state['ticklog'][:]
     _state['tick_budget'] = sum(mticks.values()) + len(mticks) + 64
     got = None
     err = None
     try:
-        if case.get('via_data'):
+        if case.get('via_data') and not case.get('source_via'):
             r = st.evaluate(data=data_src, context=ctx)
         else:
             ctx['src'] = data_src
